@@ -35,6 +35,11 @@ func (x *c18Exec) eval(fr *c18Frame, e ast.Expr) c18Val {
 		if v, ok := fr.lookup(o); ok {
 			return v
 		}
+		if fn, isFunc := o.(*types.Func); isFunc {
+			if fd := x.funcs[fn]; fd != nil && fd.Recv == nil {
+				return c18Val{k: c18KFuncDecl, fdecl: fd}
+			}
+		}
 		return x.pkgValue(o, t)
 	case *ast.SelectorExpr:
 		return x.selector(fr, t)
@@ -99,6 +104,10 @@ func (x *c18Exec) eval(fr *c18Frame, e ast.Expr) c18Val {
 		return x.call(fr, t)
 	case *ast.FuncLit:
 		return c18Val{k: c18KFunc, lit: t, fr: fr}
+	case *ast.CompositeLit:
+		if _, isMap := x.info.TypeOf(t).Underlying().(*types.Map); isMap {
+			return c18Val{k: c18KMap, cl: t, fr: fr}
+		}
 	}
 	return c18Unk("`%s` is not modelled", x.src(e))
 }
@@ -113,6 +122,10 @@ func (x *c18Exec) pkgValue(o types.Object, at ast.Node) c18Val {
 		return v
 	}
 	v := c18Unk("`%s` is not a local, a constant or a never-written package variable with a constant initialiser", o.Name())
+	if mv, ok := x.pkgMap(o); ok {
+		x.pkgC[o] = mv
+		return mv
+	}
 	if pv, ok := o.(*types.Var); ok && !pv.IsField() && pv.Pkg() == x.pk.Types && pv.Parent() == x.pk.Types.Scope() {
 		if init := c18VarInit(x.pk, pv); init != nil {
 			if tv, ok := x.info.Types[init]; ok && tv.Value != nil {
@@ -220,6 +233,9 @@ func (x *c18Exec) index(fr *c18Frame, ix *ast.IndexExpr) c18Val {
 			x.stop("panic", "`%s` indexes %d in the abstract one-element value list", x.src(ix), i.i)
 		}
 		return c18Val{k: c18KStr, org: c18OElem}
+	case c18KMap:
+		v, _ := x.mapLookup(fr, base, ix)
+		return v
 	case c18KTable:
 		i := x.eval(fr, ix.Index)
 		if i.k == c18KCurIdx && i.i == 0 && x.loopState == 1 {
